@@ -599,7 +599,8 @@ RPriorL(pf, n, v) == IF pf.kind = "gmrf" THEN IMSc(ISq(RDelta(pf, v)), GD(n, pf.
 ReShapes == IF Thorough THEN {<<3, 2>>, <<2, 3>>, <<2, 2>>} ELSE {<<3, 2>>, <<2, 3>>}
 ReConfigs ==
     { [kind |-> "reassign", m |-> sh[1], na |-> sh[2], av |-> 1, i1 |-> i, j |-> j,
-       mk |-> IF (i + j) % 2 = 0 THEN "vec" ELSE "scalar", mdl |-> IF i % 2 = 0 THEN "matrix" ELSE "func"] :
+       \* few scalar means: the closed-form route refuses them (dimension mismatch), which is an accepted outcome but tests little
+       mk |-> IF i % 8 = 3 THEN "scalar" ELSE "vec", mdl |-> IF (i + (j \div 4)) % 2 = 0 THEN "matrix" ELSE "func"] :
         sh \in ReShapes, i \in 1..NGF, j \in 1..20 }
 SelRe(r) == /\ (PForm(r.j).kind = "gmrf" => r.j \in {17, 20} /\ r.i1 \in {1, 8, 14})
             /\ (IF Thorough THEN r.m = 3 \/ r.i1 = r.j \/ r.i1 + r.j = 17 \/ r.j > 16
